@@ -96,6 +96,27 @@ theorem copy_equal_source_untouched {dst src : Ident} {h : Heap} {k j cs : Nat} 
   · simp [view, hh.read, hh.cs, bind, Except.bind, pure, Except.pure]
   · simp [view, hs'.read, hs'.cs, bind, Except.bind, pure, Except.pure]
 
+/-- **copy into a container item** (`item_group::append(const identifier *, metatype *)`: a new `item<T>`, whose
+    identifier has 24 bytes of storage, gets `*it = *id`): the stored identifier reads back as the source's charset
+    and bytes — zero bytes inside or at the end of the name and non-text content included — whatever storage the
+    source has, and the source is untouched. -/
+theorem item_append_copy {src : Ident} {h : Heap} {j k cs : Nat} {d : List Byte}
+    (hs : Holds src h j cs d) (hjk : j ≠ k)
+    (hfresh : ∀ (t : Nat) (b : Block), h.blocks[t]? = some b → b.owner = k → b.live = false) :
+    ∃ it it' h', create 24 = .ok it ∧ it.max = 20 ∧ copy it (some src) false h k = .ok (it', h', true) ∧
+      view it' h' = .ok (cs, d) ∧ view src h' = .ok (cs, d) ∧ Holds it' h' k cs d ∧ Holds src h' j cs d := by
+  obtain ⟨it, hc, hh, hm, _⟩ := create_spec 24 (by omega) h k hfresh
+  obtain ⟨it', h', hcp, hv1, hv2, hh1, hh2⟩ := copy_equal_source_untouched hh.wf hh.own hs hjk
+  exact ⟨it, it', h', hc, by rw [hm]; decide, hcp, hv1, hv2, hh1, hh2⟩
+
+/-- a name with a zero byte inside, copied from a 16-byte identifier into an item -/
+example : (do
+    let a ← create 16
+    let (a1, h1, _) ← set a ⟨[]⟩ 0 (some ([0x61, 0x62, 0, 0x63, 0x64] ++ [0])) 5
+    let it ← create 24
+    let (it1, h2, _) ← copy it (some a1) false h1 1
+    pure ((view it1 h2).toOption, it1.max)).toOption = some (some (1, [0x61, 0x62, 0, 0x63, 0x64, 0]), 20) := by decide
+
 /-- copy onto itself, and copy from the zero pointer -/
 theorem copy_self_unchanged {id : Ident} {h : Heap} {k : Nat} (hw : Wf id h k) :
     copy id (some id) true h k = .ok (id, h, true) := copy_self hw
